@@ -159,7 +159,14 @@ fn gen_custom_vtable(custom_trait: &ast::Trait, custom_trait_vtable_type: &Ident
         let method_name = Ident::new(&format!("run_{}_callback", m.name), Span::call_site());
         let return_tokens = match &m.output_type {
             Some(ret_ty) => {
-                let conv_ret_ty = ret_ty.to_syn();
+                // Option<T> is not FFI-safe: the foreign function answers with the DiplomatOption<T>
+                // the backends declare (same as for callbacks)
+                let conv_ret_ty = match ret_ty {
+                    ast::TypeName::Option(..) if !ret_ty.is_ffi_safe() => {
+                        ret_ty.ffi_safe_version().to_syn()
+                    }
+                    _ => ret_ty.to_syn(),
+                };
                 quote!( -> #conv_ret_ty)
             }
             None => {
@@ -198,10 +205,22 @@ fn gen_custom_trait_impl(custom_trait: &ast::Trait, custom_trait_struct_name: &I
             .map(|p| {
                 let orig_type = p.ty.to_syn();
                 let p_ty = param_ty(&p.ty);
-                if let Some(conversion) = param_conversion(&p.name.clone(), &p.ty, Some(&p_ty)) {
+                let p_name = &p.name;
+                if let (ast::TypeName::Option(inner, StdlibOrDiplomat::Stdlib), false) =
+                    (&p.ty, p.ty.is_ffi_safe())
+                {
+                    // Trait method arguments travel from Rust to the foreign side: Option<T> needs to become
+                    // the FFI-safe DiplomatOption<T>, the opposite of what is done for method parameters
+                    let inner_ty = inner.ffi_safe_version().to_syn();
+                    all_params_conversion.push(quote! {
+                        let #p_name: Option<#inner_ty> = #p_name.map(|v| v.into());
+                        let #p_name: #p_ty = #p_name.into();
+                    });
+                } else if let Some(conversion) =
+                    param_conversion(&p.name.clone(), &p.ty, Some(&p_ty))
+                {
                     all_params_conversion.push(conversion);
                 }
-                let p_name = &p.name;
                 quote!(#p_name : #orig_type)
             })
             .collect();
@@ -243,11 +262,27 @@ fn gen_custom_trait_impl(custom_trait: &ast::Trait, custom_trait_struct_name: &I
         };
         let runner_method_name =
             Ident::new(&format!("run_{}_callback", method_name), Span::call_site());
+        let call = quote!(((self.vtable).#runner_method_name)(self.data #(#param_names)*));
+        let call = match &m.output_type {
+            Some(ret_ty @ ast::TypeName::Option(inner, StdlibOrDiplomat::Stdlib))
+                if !ret_ty.is_ffi_safe() =>
+            {
+                // ... and converted back for the Rust caller
+                let inner_ty = inner.ffi_safe_version().to_syn();
+                let orig_ty = ret_ty.to_syn();
+                quote! {
+                    let ret: Option<#inner_ty> = #call.into();
+                    let ret: #orig_ty = ret.map(|v| v.into());
+                    ret
+                }
+            }
+            _ => quote!(#call #end_token),
+        };
         methods.push(syn::Item::Fn(syn::parse_quote!(
             fn #method_name #lifetimes (#(#param_names_and_types),*) #return_tokens {
                 unsafe {
                     #(#all_params_conversion)*
-                    ((self.vtable).#runner_method_name)(self.data #(#param_names)*)#end_token
+                    #call
                 }
             }
 
